@@ -19,6 +19,10 @@ NAMES = ['a', 'b', 'c', 'd']
 TAGS = ['t', 'u']
 
 
+# thorough tier: coverage-guided campaigns on top of the random ones
+ATHERIS = [{'impl': 'py', 'n': 40000, 'name': 'py-atheris'},
+           {'impl': 'c', 'n': 40000, 'name': 'c-atheris'}]
+
 def configs(tier, seed):
     n = 1200 if tier == 'quick' else 20000
     return [{'name': impl + '-resolve', 'impl': impl, 'mode': 'hyp', 'n': n}
